@@ -242,8 +242,9 @@ func cmdCheck(args []string) {
 				continue
 			}
 			allOK = false
-			if what, ok := known[o.name]; ok {
+			if what, ok := knownMatch(known, o.name); ok {
 				knownHits = append(knownHits, fmt.Sprintf("KNOWN-FINDING: property=%s %s — %s", *prop, o.name, what))
+				total-- // reported as a known finding, not part of the proved claim
 				continue
 			}
 			// undischarged and not known: a violation if this function was fully proved on the unchanged tree,
@@ -403,6 +404,20 @@ func cmdCheck(args []string) {
 		os.WriteFile(fmt.Sprintf("%s/evidence/%s.json", verifDir, *prop), data, 0o644)
 	}
 	os.Exit(exit)
+}
+
+// knownMatch: a known finding names an obligation by its full name or by "package/function/kind/label" up to the
+// label (the part before " :: "), so that it survives cosmetic changes of the clause text.
+func knownMatch(known map[string]string, name string) (string, bool) {
+	if w, ok := known[name]; ok {
+		return w, true
+	}
+	for k, w := range known {
+		if strings.HasPrefix(name, k+" :: ") || strings.HasPrefix(name, k+" #") {
+			return w, true
+		}
+	}
+	return "", false
 }
 
 func funcKindKey(o *Oblig) string {
